@@ -3,6 +3,7 @@ package main
 import (
 	"go/token"
 	"go/types"
+	"strings"
 
 	"golang.org/x/tools/go/ssa"
 )
@@ -147,19 +148,19 @@ func (k *core) namer(extra func(v ssa.Value) string) atomNamer {
 func c04InitialVerify(c *Ctx, k *core) {
 	f := k.config
 	name := relName(f)
-	vis := k.verifyInvokes(f)
-	if len(vis) != 1 {
-		c.bad("initial-verify", name, f.Pos(), "Config contains %d Verify invokes, want exactly 1", len(vis))
+	vss := k.verifySites(f)
+	if len(vss) != 1 {
+		c.bad("initial-verify", name, f.Pos(), "Config contains %d Verify invokes, want exactly 1", len(vss))
 		return
 	}
-	vi := vis[0]
-	ta := k.verifiedAssert(vi.Call.Value)
-	if ta == nil || !ta.Block().Dominates(vi.Block()) {
+	vs := vss[0]
+	vi := vs.Call
+	if vs.Recv == nil || !vs.from().Dominates(vi.Block()) && vs.from() != vi.Block() {
 		c.undecided("initial-verify", name, vi.Pos(), "receiver of Verify is not the result of a comma-ok assertion to VerifiedConfig")
 		return
 	}
-	pb := &predBuilder{name: k.namer(nil)}
-	g := pb.pathCond(ta.Block(), vi.Block())
+	pb := k.withSites(&predBuilder{name: k.namer(nil)}, vss)
+	g := k.siteGuard(pb, vs, c04GuardFrom(pb, vs))
 	c.checkTable("initial-verify", name+"#guard", vi.Pos(), g,
 		[]string{"isVerified", "Params.SkipInitialVerification", "Params.DelayInitialVerification"}, nil,
 		"isVerified && !Skip && !Delay",
@@ -176,7 +177,7 @@ func c04InitialVerify(c *Ctx, k *core) {
 			e, ok := v.(*ssa.Extract)
 			return ok && e.Tuple == composeCall && e.Index == 0
 		}
-		c.check(derivesAll(ta.X, isRes, nil), "initial-verify", name+"#receiver", vi.Pos(),
+		c.check(recvIs(vs.Recv, isRes), "initial-verify", name+"#receiver", vi.Pos(),
 			"Verify is invoked on the compose result", "Verify receiver does not derive from the compose result")
 	}
 	// the failing branch: from `if verr != nil` true edge no go / success return
@@ -230,23 +231,24 @@ func c04InitialVerify(c *Ctx, k *core) {
 		}
 	}
 	// the decision dominates every go and every success return
+	decision := c04GuardFrom(pb, vs)
 	allDom := true
 	for _, i := range allInstrs(f) {
 		switch x := i.(type) {
 		case *ssa.Go:
-			if !ta.Block().Dominates(x.Block()) {
+			if !decision.Dominates(x.Block()) {
 				allDom = false
 				c.bad("initial-verify", name+"#dominates", x.Pos(), "goroutine start not dominated by the verification decision")
 			}
 		case *ssa.Return:
-			if x.Block() != f.Recover && len(x.Results) == 2 && !isNilConst(retVals(x)[0]) && !ta.Block().Dominates(x.Block()) {
+			if x.Block() != f.Recover && len(x.Results) == 2 && !isNilConst(retVals(x)[0]) && !decision.Dominates(x.Block()) {
 				allDom = false
 				c.bad("initial-verify", name+"#dominates", x.Pos(), "success return not dominated by the verification decision")
 			}
 		}
 	}
 	if allDom {
-		c.ok("initial-verify", name+"#dominates", ta.Pos(), "verification decision dominates all goroutine starts and success returns")
+		c.ok("initial-verify", name+"#dominates", vi.Pos(), "verification decision dominates all goroutine starts and success returns")
 	}
 }
 
@@ -366,22 +368,22 @@ func c04StoreFn(c *Ctx, k *core, f *ssa.Function) {
 		return
 	}
 	isRes := func(v ssa.Value) bool { return v == composeRes }
-	vis := k.verifyInvokes(f)
-	if len(vis) != 1 {
-		c.bad("store-after-verify", name, f.Pos(), "%d Verify invokes in the storing function, want exactly 1", len(vis))
+	vss := k.verifySites(f)
+	if len(vss) != 1 {
+		c.bad("store-after-verify", name, f.Pos(), "%d Verify invokes in the storing function, want exactly 1", len(vss))
 		return
 	}
-	vi := vis[0]
-	ta := k.verifiedAssert(vi.Call.Value)
-	if ta == nil {
+	vs := vss[0]
+	vi := vs.Call
+	if vs.Recv == nil {
 		c.undecided("store-after-verify", name, vi.Pos(), "Verify receiver is not a comma-ok assertion to VerifiedConfig")
 		return
 	}
-	c.check(derivesAll(ta.X, isRes, nil), "store-after-verify", name+"#receiver", vi.Pos(),
+	c.check(recvIs(vs.Recv, isRes), "store-after-verify", name+"#receiver", vi.Pos(),
 		"Verify is invoked on the compose result of this re-stack", "Verify receiver does not derive from this re-stack's compose result")
 
 	// the skipVerify flag: a bool parameter
-	pb := &predBuilder{name: k.namer(func(v ssa.Value) string {
+	pb := k.withSites(&predBuilder{name: k.namer(func(v ssa.Value) string {
 		if p, ok := v.(*ssa.Parameter); ok && p.Parent() == f {
 			if b, ok := p.Type().Underlying().(*types.Basic); ok && b.Kind() == types.Bool {
 				return "skipVerify"
@@ -390,11 +392,11 @@ func c04StoreFn(c *Ctx, k *core, f *ssa.Function) {
 		if v == composeErr {
 			return "composeErr"
 		}
-		if v == ssa.Value(vi) {
+		if v == ssa.Value(vi) && vs.wrap == nil {
 			return "verifyErr"
 		}
 		return ""
-	})}
+	})}, vss)
 	entry := f.Blocks[0]
 	for n, sc := range stores {
 		si := sc.(ssa.Instruction)
@@ -411,7 +413,7 @@ func c04StoreFn(c *Ctx, k *core, f *ssa.Function) {
 		c.check(composeCall.Block() == entry || composeCall.Block().Dominates(si.Block()), "store-after-verify", id+"-dominated", sc.Pos(),
 			"compose dominates the store", "store not dominated by the compose call")
 		// the Verify invoke itself is reached iff isVerified && !skipVerify (given compose ok)
-		gv := pb.pathCond(composeCall.Block(), vi.Block())
+		gv := k.siteGuard(pb, vs, composeCall.Block())
 		c.checkTable("store-after-verify", name+"#verify-guard", vi.Pos(), gv,
 			[]string{"isnil(composeErr)", "isVerified", "skipVerify"}, nil,
 			"composeErr==nil && isVerified && !skipVerify",
@@ -795,4 +797,38 @@ func c04FromEvent(v ssa.Value) bool {
 		return false
 	}
 	return rec(v)
+}
+
+// c04GuardFrom: the block from which a Verify site's guard table is taken. For a raw invoke it is the
+// block of the comma-ok assertion; for a wrapper call (the assertion is inside the wrapper) the walk
+// goes up the dominator tree of the call while the controlling conditions consist only of atoms the
+// rule's namer knows (flags and Params fields), so that a guard written at the call site is included.
+func c04GuardFrom(pb *predBuilder, vs verifySite) *ssa.BasicBlock {
+	if vs.wrap == nil {
+		return vs.from()
+	}
+	b := vs.Call.Block()
+	for {
+		id := b.Idom()
+		if id == nil || len(b.Preds) != 1 || b.Preds[0] != id {
+			return b
+		}
+		iff, ok := id.Instrs[len(id.Instrs)-1].(*ssa.If)
+		if !ok {
+			return b
+		}
+		f := pb.valueFormula(iff.Cond, 0)
+		fb, fi := map[string]bool{}, map[string]bool{}
+		atomsOf(f, fb, fi)
+		known := len(fi) == 0
+		for a := range fb {
+			if !(strings.HasPrefix(a, "Params.") || a == "skipVerify" || a == "isVerified" || strings.HasPrefix(a, "isnil(monCtl")) {
+				known = false
+			}
+		}
+		if !known {
+			return b
+		}
+		b = id
+	}
 }
